@@ -29,8 +29,9 @@ from concurrent.futures import ThreadPoolExecutor
 VERIF = os.path.dirname(os.path.dirname(os.path.abspath(__file__)))
 REPO = os.environ.get("VERIF_REPO", "/repo")
 SCRATCH_ROOT = os.environ.get("VERIF_SCRATCH", "/tmp")
-MAX_PAR = int(os.environ.get("VERIF_JOBS", "14"))
-MEM_GB = int(os.environ.get("VERIF_MEM_GB", "14"))
+MAX_PAR = int(os.environ.get("VERIF_JOBS", "12"))
+MEM_GB = int(os.environ.get("VERIF_MEM_GB", "40"))  # address-space limit per job
+RSS_GB = int(os.environ.get("VERIF_RSS_GB", "12"))  # resident limit per job (watchdog)
 
 sys.path.insert(0, os.path.join(VERIF, "lib"))
 
@@ -108,23 +109,37 @@ def _limits():
     resource.setrlimit(resource.RLIMIT_AS, (lim, lim))
 
 
-def run_cmd(cmd, cwd, timeout, logfile, env=None):
+def run_cmd(cmd, cwd, timeout, logfile, env=None, rss_gb=None):
+    rss_limit = (rss_gb or RSS_GB) * (1 << 20)
     t0 = time.time()
     with open(logfile, "w") as lf:
         p = subprocess.Popen(
             cmd, cwd=cwd, stdout=lf, stderr=subprocess.STDOUT, preexec_fn=_limits, env=env
         )
-        try:
-            rc = p.wait(timeout=timeout)
-            timed_out = False
-        except subprocess.TimeoutExpired:
-            timed_out = True
+        timed_out = False
+        rc = None
+        while rc is None:
             try:
-                os.killpg(p.pid, signal.SIGKILL)
-            except ProcessLookupError:
-                pass
-            p.wait()
-            rc = -9
+                rc = p.wait(timeout=5)
+            except subprocess.TimeoutExpired:
+                over = time.time() - t0 > timeout
+                rss = 0
+                if not over:
+                    try:
+                        out = subprocess.check_output(["ps", "-o", "rss=", "-g", str(p.pid)], text=True)
+                        rss = sum(int(x) for x in out.split())
+                    except Exception:
+                        rss = 0
+                if over or rss > rss_limit:
+                    timed_out = over
+                    try:
+                        os.killpg(p.pid, signal.SIGKILL)
+                    except ProcessLookupError:
+                        pass
+                    p.wait()
+                    rc = -9
+                    if not over:
+                        lf.write("\nVERIF-RUNNER: killed, resident memory above %d GB (out of memory)\n" % RSS_GB)
     return rc, timed_out, time.time() - t0
 
 
@@ -183,7 +198,7 @@ def parse_kani_log(text):
 def kani_cmd(group, hname, hspec, tgt, extra=()):
     full = hspec.get("prefix", group.get("prefix", "")) + hname
     cmd = ["cargo", "kani", "-p", group["package"], "--harness", full, "--exact", "--target-dir", tgt]
-    cmd += ["--no-assertion-reach-checks", "-Z", "concrete-playback", "--concrete-playback=print"]
+    cmd += ["--no-assertion-reach-checks"]
     flags = list(group.get("flags", [])) + list(hspec.get("flags", []))
     cmd += flags
     cmd += list(extra)
@@ -204,6 +219,17 @@ def classify(hname, hspec, rc, timed_out, parsed, logtext):
     unsat_cov = [c for c in parsed["checks"] if c["status"] == "UNSATISFIABLE"]
     if bad_status and not failed:
         return "INCONCLUSIVE", "solver status ERROR/UNDETERMINED"
+    must = hspec.get("must_fail_with")
+    if must:
+        # documented panics: these failures are expected (and required, as reachability witness);
+        # any other failure is a real one
+        hit = [c for c in failed if any(m in c["description"] for m in must)]
+        failed = [c for c in failed if not any(m in c["description"] for m in must)]
+        if not hit and not failed:
+            return "INCONCLUSIVE", "vacuity: documented panic %r not reached" % must
+        if not failed:
+            return "PASS", "documented panic reached; invariant held at the panic point"
+        return "FAIL", "; ".join(sorted(set(c["description"] for c in failed)))[:600]
     if kind == "reach":
         # vacuity twin: must fail, and only in its witness assertion
         if failed and all("reachability witness" in c["description"] for c in failed):
@@ -244,6 +270,7 @@ def run_harness(group, tree, scratch, hname, hspec, tier):
         "parsed": parsed,
         "logfile": logfile,
         "what": hspec.get("what", ""),
+        "must_fail_with": hspec.get("must_fail_with"),
     }
 
 
@@ -282,7 +309,7 @@ def replay_failure(group, tree, scratch, res, tier, pid):
     hspec = res_spec(group, hname, tier)
     os.makedirs(os.path.join(VERIF, "replays", pid), exist_ok=True)
     rpath = os.path.join(VERIF, "replays", pid, re.sub(r"\W", "_", hname) + ".md")
-    failed = [c for c in res["parsed"]["checks"] if c["status"] == "FAILURE"]
+    failed = real_failures(res)
     lines = ["# Replay for property %s, harness `%s` (tier %s)" % (pid, hname, tier), ""]
     lines += ["What the harness checks: " + res.get("what", ""), ""]
     lines += ["## Failed checks (solver verdict over all inputs within the bounds)", ""]
@@ -294,7 +321,16 @@ def replay_failure(group, tree, scratch, res, tier, pid):
         and "assertion failed" not in c["description"]
         for c in failed
     )
-    tests = [t for t in res["parsed"].get("tests", []) if t["class"] != "cover" and t["name"]]
+    # second run of the failing harness with concrete playback (costs memory, so not done up front)
+    tgt = os.path.join(scratch, "tgt_replay_" + re.sub(r"\W", "_", hname))
+    rlog = os.path.join(scratch, "log_replay_%s.txt" % re.sub(r"\W", "_", hname))
+    cmd = kani_cmd(group, hname, hspec, tgt, extra=["-Z", "concrete-playback", "--concrete-playback=print"])
+    run_cmd(cmd, tree, 3600, rlog, rss_gb=30)
+    shutil.rmtree(tgt, ignore_errors=True)
+    rparsed = parse_kani_log(open(rlog, errors="replace").read())
+    fdesc = [c["description"] for c in failed]
+    tests = [t for t in rparsed.get("tests", []) if t["class"] != "cover" and t["name"]
+             and any(t["check"] in d or d in t["check"] for d in fdesc)]
     seen = set()
     uniq = []
     for t in tests:
@@ -397,9 +433,18 @@ def load_known():
     return out
 
 
+def real_failures(res):
+    must = res.get("must_fail_with") or []
+    return [
+        c for c in res["parsed"]["checks"]
+        if c["status"] == "FAILURE" and not any(m in c["description"] for m in must)
+        and not (res.get("kind") == "reach" and "reachability witness" in c["description"])
+    ]
+
+
 def match_known(known, pid, res):
     """A failing harness is a known finding iff *every* failed check is listed for (pid, harness)."""
-    failed = [c for c in res["parsed"]["checks"] if c["status"] == "FAILURE"]
+    failed = real_failures(res)
     if not failed:
         return None
     hits = []
